@@ -252,6 +252,26 @@ def run(ctx: Any, prog: Program) -> None:
         ctx.check('C12.W6', p6 is None, core, unlink_nodes[0].stmt if unlink_nodes and p6 else r.stmt, 'the temp name is unlinked on the path on which replace() succeeded' + (': ' + g.describe(p6) if p6 else '') +
                   ' - by then the name may belong to a second writer (its exclusive create succeeds once the rename freed the name), whose half-written file is deleted',
                   func='AtomicWriter.__exit__', text='no unlink after the commit')
+    # W7: replace() is the commit point.  Whatever runs after it on the success path must not be able to fail: an exception there reaches the
+    # caller as "the write failed" although the destination already holds the new data (a directory fsync, a logging call on a closed stream)
+    ctx.rule('C12.W7', 'nothing that can raise runs after the successful replace() inside __exit__', floor=1)
+    for r in replace_nodes:
+        exc_out = {(r.id, m, lab) for m, lab in g.succ[r.id] if lab == 'exc'}
+        callers7 = {n.id for n in g.nodes if n.id != r.id and n.kind in ('stmt', 'return', 'test') and n.stmt is not None and any(isinstance(c, ast.Call) for c in ast.walk(n.stmt))}
+        known7: Dict[str, bool] = {}
+        ch7: ast.AST = r.stmt
+        par7 = core.parents.get(ch7)
+        while par7 is not None and par7 is not ex:
+            if isinstance(par7, ast.If):
+                t7, pol7 = par7.test, ch7 in par7.body
+                if isinstance(t7, ast.UnaryOp) and isinstance(t7.op, ast.Not):
+                    t7, pol7 = t7.operand, not pol7
+                if isinstance(t7, ast.Name):
+                    known7[t7.id] = pol7
+            ch7, par7 = par7, core.parents.get(par7)
+        p7 = g.find_path_flags(r, callers7, removed_edges=exc_out, start_vals=known7)
+        ctx.check('C12.W7', p7 is None, core, g.nodes[p7[-1][0]].stmt if p7 else r.stmt, 'a call runs after replace() has succeeded' + (': ' + g.describe(p7) if p7 else '') +
+                  ' - if it raises, the caller is told the write failed while the destination has already been replaced (the previous contents are gone)', func='AtomicWriter.__exit__', text='nothing fallible after the commit')
     # ---- W4 ----------------------------------------------------------------------------------------------
     mt = aw.get('make_tempfile')
     if mt is None:
@@ -432,6 +452,7 @@ def run(ctx: Any, prog: Program) -> None:
 
 
 MUTANTS = [
+    {'id': 'exit_syncs_directory_after_replace', 'file': '__init__.py', 'find': "                self._temp_name.replace(self.filename)\n                committed = True\n", 'replace': "                self._temp_name.replace(self.filename)\n                _os.fsync(_os.open(self.filename.parent, _os.O_RDONLY))\n                committed = True\n", 'expect': 'C12.W7'},
     {'id': 'exit_commit_decided_up_front', 'file': '__init__.py', 'find': '        committed = False\n        try:', 'replace': '        commit = exc_type is None\n        try:', 'extra': [{'file': '__init__.py', 'find': '            if exc_type is None:\n                # No exception, commit changes\n                self._temp_name.replace(self.filename)\n                committed = True\n', 'replace': '            if commit:\n                self._temp_name.replace(self.filename)\n'}, {'file': '__init__.py', 'find': '            if not committed:', 'replace': '            if not commit:'}], 'expect': 'C12.W3'},
     {'id': 'ok_exit_body_ok_alias', 'file': '__init__.py', 'find': '        committed = False\n        try:', 'replace': '        committed = False\n        body_ok = exc_type is None\n        try:', 'extra': [{'file': '__init__.py', 'find': '            if exc_type is None:\n                # No exception, commit changes\n', 'replace': '            if body_ok:\n'}], 'expect': None},
     {'id': 'unlink_after_commit', 'file': '__init__.py', 'find': "            if not committed:\n                # An exception occurred in the body, or while closing/renaming. Clean up.\n                try:\n                    self._temp_name.unlink()\n                except OSError:\n                    pass\n", 'replace': "            try:\n                self._temp_name.unlink(missing_ok=True)\n            except OSError:\n                pass\n", 'expect': 'C12.W6'},
